@@ -16,12 +16,12 @@ from mc.core import Result, SubCheck, jhash, VERIF
 PROPERTY = "C11"
 ASSUMPTIONS = [
     "menu of 5 problems chosen to collide on library state (different zone names -> graph dictionary; explicit utilities -> active/t_target write-back; "
-    "user zone tree -> label rewriting; options block; plain), each passed as dict, as a freshly validated model, and as ONE model object reused across the history",
+    "user zone tree -> label rewriting; options block; plain), each passed as dict, as a freshly validated model, as ONE model object reused across the history, and (two of them) as a dict whose entries are schema instances",
     "reference = the same problem computed once in a fresh interpreter (one subprocess per problem), compared as canonical JSON incl. the set of graph keys",
     "module digest = all data globals, all function __defaults__/__kwdefaults__ and all class attributes of every loaded OpenPinch.* module",
-    "histories: every sequence of <=3 (quick) / <=4 over a reduced menu (thorough) service calls; every sequence of <=4 PinchProblem load/target/export calls",
+    "histories: every sequence of <=3 (quick) / <=4 over a reduced menu (thorough) service calls; every sequence of <=4 PinchProblem load (two JSON files, a model, a CSV pair) / target / export calls, with the problem tables of the zone tree returned by target() snapshotted around every export",
 ]
-FORMS = ["dict", "model", "shared"]
+FORMS = ["dict", "model", "shared", "dict-of-models"]
 
 
 # ------------------------------------------------------------------ problems
@@ -142,13 +142,13 @@ def digest_diff(a, b):
 
 
 # ------------------------------------------------------------------ service histories
-FULL = [(p, f) for p in range(5) for f in range(3)]
-# the 8 events that carry state between calls: the reused model of every problem + three dict/model forms
-REDUCED = [(p, 2) for p in range(5)] + [(0, 0), (2, 0), (3, 1)]
+FULL = [(p, f) for p in range(5) for f in range(3)] + [(2, 3), (3, 3)]
+# the 9 events that carry state between calls: the reused model of every problem + dict/model forms
+REDUCED = [(p, 2) for p in range(5)] + [(0, 0), (2, 0), (3, 1), (3, 3)]
 
 
 def menus(tier):
-    """[(event menu, depth)]: the full 15-event menu to one depth, the reduced state-carrying menu one call deeper."""
+    """[(event menu, depth)]: the full 17-event menu to one depth, the reduced state-carrying menu one call deeper."""
     if tier == "quick":
         return [(FULL, 2), (REDUCED, 3)]
     return [(FULL, 3), (REDUCED, 4)]
@@ -175,6 +175,11 @@ def run_history(inst, hist, events, res: Result, case):
         elif FORMS[form] == "model":
             arg = TargetInput.model_validate(copy.deepcopy(prob))
             snap = arg.model_dump(mode="json")
+        elif FORMS[form] == "dict-of-models":
+            # a plain dict whose entries are already schema instances (validation keeps such instances as they are)
+            m = TargetInput.model_validate(copy.deepcopy(prob))
+            arg = {"streams": list(m.streams), "utilities": list(m.utilities), "options": copy.deepcopy(prob.get("options")), "zone_tree": m.zone_tree}
+            snap = _dump(arg)
         else:
             if pi not in shared:
                 shared[pi] = TargetInput.model_validate(copy.deepcopy(prob))
@@ -193,7 +198,7 @@ def run_history(inst, hist, events, res: Result, case):
                          "targets": [(t["name"], t["Qh"], t["Qc"], t["Qr"]) for t in a["targets"]][:6],
                          "fresh_targets": [(t["name"], t["Qh"], t["Qc"], t["Qr"]) for t in b["targets"]][:6]},
                         f"result_depends_on_history:{what}:{FORMS[form]}" + (":reused-model" if FORMS[form] == "shared" and step > 0 else ""))
-        after_arg = arg if FORMS[form] == "dict" else arg.model_dump(mode="json")
+        after_arg = arg if FORMS[form] == "dict" else (_dump(arg) if FORMS[form] == "dict-of-models" else arg.model_dump(mode="json"))
         if after_arg != snap:
             diff = _first_diff(snap, after_arg)
             res.violate("caller_input_changed", case, {"step": step, "problem": name, "form": FORMS[form], "first_difference": diff},
@@ -208,6 +213,19 @@ def run_history(inst, hist, events, res: Result, case):
                         "module_state_changed:" + ",".join(k.rsplit(".", 2)[-2] for k in digest_diff(before, after)[:2]))
         res.state_keys.add(digest_key(after))
     return len(problems_seen) >= 2, res.n_violations > n_viol0
+
+
+def _dump(d):
+    """JSON view of a dict that may hold schema instances"""
+    def conv(x):
+        if hasattr(x, "model_dump"):
+            return x.model_dump(mode="json")
+        if isinstance(x, list):
+            return [conv(i) for i in x]
+        if isinstance(x, dict):
+            return {k: conv(v) for k, v in x.items()}
+        return x
+    return conv(d)
 
 
 def _first_diff(a, b, path=""):
@@ -272,7 +290,7 @@ def svc_replay(case, res: Result):
 
 
 # ------------------------------------------------------------------ PinchProblem histories
-PP_EVENTS = ["load_a", "load_b", "load_a_model", "target", "export"]
+PP_EVENTS = ["load_a", "load_b", "load_a_model", "load_b_csv", "target", "export"]
 
 
 def pp_explore(tier, inst, shard, nshards):
@@ -282,17 +300,25 @@ def pp_explore(tier, inst, shard, nshards):
     res.state_keys = set()
     res.nt_keys = set()
     fresh_reference(inst)
-    depth = 4 if tier == "quick" else 5
+    # full 6-event menu to one depth, the 4 events {load JSON a, load CSV pair b, target, export} one call deeper
+    full = list(range(len(PP_EVENTS)))
+    core = [PP_EVENTS.index(e) for e in ("load_a", "load_b_csv", "target", "export")]
+    plan = [(full, 3), (core, 4)] if tier == "quick" else [(full, 4), (core, 5)]
     idx = 0
-    for n in range(1, depth + 1):
-        for hist in itertools.product(range(len(PP_EVENTS)), repeat=n):
-            idx += 1
-            if idx % nshards != shard:
-                continue
-            case = {"history": list(hist), "inst": list(inst)}
-            pp_run(inst, hist, res, case)
-            if len(res.samples) < 2:
-                res.samples.append({"history": [PP_EVENTS[e] for e in hist]})
+    done = set()
+    for menu_, depth in plan:
+        for n in range(1, depth + 1):
+            for hist in itertools.product(menu_, repeat=n):
+                if hist in done:
+                    continue
+                done.add(hist)
+                idx += 1
+                if idx % nshards != shard:
+                    continue
+                case = {"history": list(hist), "inst": list(inst)}
+                pp_run(inst, hist, res, case)
+                if len(res.samples) < 2:
+                    res.samples.append({"history": [PP_EVENTS[e] for e in hist]})
     return res
 
 
@@ -305,25 +331,39 @@ def pp_run(inst, hist, res, case):
     try:
         files = {}
         for key, pi in (("a", 0), ("b", 1)):
-            fp = os.path.join(tmp, "Project.json") if key == "a" else os.path.join(tmp, "sub", "Project.json")
+            fp = os.path.join(tmp, "Project.json") if key == "a" else os.path.join(tmp, "sub", "Other plant.json")
             os.makedirs(os.path.dirname(fp), exist_ok=True)
             with open(fp, "w") as fh:
                 json.dump(probs[pi][1], fh)
             files[key] = (fp, pi)
+        model_a = TargetInput.model_validate(copy.deepcopy(probs[0][1]))
+        from checks.c16 import csv_text, STREAM_HDR, UTIL_HDR, stream_rows, util_rows
+        csvs = (os.path.join(tmp, "s.csv"), os.path.join(tmp, "u.csv"))
+        open(csvs[0], "w", newline="").write(csv_text([STREAM_HDR[0], STREAM_HDR[1]] + stream_rows(probs[1][1])))
+        open(csvs[1], "w", newline="").write(csv_text([UTIL_HDR[0], UTIL_HDR[1]] + util_rows(probs[1][1])))
+        # reference: a FRESH wrapper that only loads that source and targets it (root name as that wrapper derives it)
+        ref = {}
+        for key, src in (("a", files["a"][0]), ("b", files["b"][0]), ("m", TargetInput.model_validate(copy.deepcopy(probs[0][1]))), ("c", csvs)):
+            w = PinchProblem()
+            w.load(src)
+            ref[key] = canon_output(w.target())
         pp = PinchProblem()
         loaded = None
         via_model = False
-        model_a = TargetInput.model_validate(copy.deepcopy(probs[0][1]))
+        cur = None
+        held = None
         for step, e in enumerate(hist):
             ev = PP_EVENTS[e]
             before = module_digest()
             try:
                 if ev == "load_a":
-                    pp.load(files["a"][0]); loaded = 0; via_model = False
+                    pp.load(files["a"][0]); loaded = 0; via_model = False; cur = "a"
                 elif ev == "load_b":
-                    pp.load(files["b"][0]); loaded = 1; via_model = False
+                    pp.load(files["b"][0]); loaded = 1; via_model = False; cur = "b"
+                elif ev == "load_b_csv":
+                    pp.load(csvs); loaded = 1; via_model = True; cur = "c"
                 elif ev == "load_a_model":
-                    pp.load(model_a); loaded = 0; via_model = True   # the project (root) name is not defined by a model: numbers only
+                    pp.load(model_a); loaded = 0; via_model = True; cur = "m"
                 elif ev == "target":
                     if loaded is None:
                         try:
@@ -334,18 +374,26 @@ def pp_run(inst, hist, res, case):
                     else:
                         out = pp.target()
                         res.transitions += 1
-                        same = (canon_output(out) == _FRESH[loaded]) if not via_model else (numbers_only(canon_output(out)) == numbers_only(_FRESH[loaded]))
+                        held = (pp.master_zone, _zone_tables(pp.master_zone))
+                        same = canon_output(out) == ref[cur] and numbers_only(canon_output(out)) == numbers_only(_FRESH[loaded])
                         if not same:
-                            a, b = json.loads(canon_output(out)), json.loads(_FRESH[loaded])
+                            a, b = json.loads(canon_output(out)), json.loads(ref[cur])
+                            only_name = numbers_only(canon_output(out)) == numbers_only(_FRESH[loaded])
                             res.violate("wrapper_result_ne_fresh_result_of_loaded_problem", case,
                                         {"step": step, "loaded": probs[loaded][0], "history": [PP_EVENTS[i] for i in hist],
                                          "targets": [(t["name"], t["Qh"]) for t in a["targets"]][:4], "fresh": [(t["name"], t["Qh"]) for t in b["targets"]][:4]},
-                                        "pp:result_ne_fresh:" + ("stale-cache-after-load" if any(PP_EVENTS[i].startswith("load") for i in hist[1:step]) else "first"))
+                                        "pp:result_ne_fresh:" + ("project-name-carried-over" if only_name else
+                                                                 ("stale-cache-after-load" if any(PP_EVENTS[i].startswith("load") for i in hist[1:step]) else "first")))
                 elif ev == "export":
+                    if loaded is not None and held is not None and held[0] is pp.master_zone:
+                        pass
                     if loaded is not None:
                         os.makedirs(os.path.join(tmp, "out"), exist_ok=True)
                         pp.export_to_Excel(os.path.join(tmp, "out"))
                         res.transitions += 1
+                        if held is not None and held[0] is pp.master_zone and _zone_tables(pp.master_zone) != held[1]:
+                            res.violate("earlier_result_altered", case, {"step": step, "event": ev, "what": "problem tables of the zone tree returned by target() changed during export"},
+                                        "pp:earlier_result_altered:export")
             except Exception as exc:
                 res.violate("wrapper_raises", case, {"step": step, "event": ev, "error": repr(exc)[:300]}, f"pp:raises:{ev}:{type(exc).__name__}")
                 break
@@ -361,6 +409,22 @@ def pp_run(inst, hist, res, case):
         shutil.rmtree(tmp, ignore_errors=True)
 
 
+def _zone_tables(master):
+    """digest of every problem table held by the zone tree of a returned result"""
+    import numpy as np
+    out = []
+    stack = [master]
+    while stack:
+        z = stack.pop()
+        for key, t in z.targets.items():
+            for nm in ("pt", "pt_real"):
+                tab = getattr(t, nm, None)
+                if tab is not None and getattr(tab, "data", None) is not None:
+                    out.append((key, nm, jhash(np.nan_to_num(np.asarray(tab.data, dtype=float), nan=-7.7e77).round(9).tolist())))
+        stack.extend(z.subzones.values())
+    return sorted(out)
+
+
 def pp_replay(case, res: Result):
     inst = tuple(case["inst"])
     res.state_keys = set()
@@ -372,19 +436,19 @@ def pp_replay(case, res: Result):
 SUBCHECKS = {
     "service": SubCheck(
         name="service",
-        describe="all sequences of pinch_analysis_service calls over a 15-event menu (5 colliding problems x dict / fresh model / one reused model), executed in long-lived processes",
+        describe="all sequences of pinch_analysis_service calls over a 17-event menu (5 colliding problems x dict / fresh model / one reused model), executed in long-lived processes",
         rule="state = digest of the library's module state (1 distinct state on a pure library); transition = one service call; "
              "non-trivial = history containing >=2 different problems; outcomes = distinct last events",
         explore=svc_explore, replay=svc_replay, prepare=lambda tier, inst: fresh_reference(inst),
         min_outcomes=2,
-        bound=lambda t: "all histories of <=2 calls over 15 events + <=3 calls over the 8 state-carrying events" if t == "quick"
-        else "all histories of <=3 calls over 15 events + <=4 calls over the 8 state-carrying events",
+        bound=lambda t: "all histories of <=2 calls over 17 events + <=3 calls over the 9 state-carrying events" if t == "quick"
+        else "all histories of <=3 calls over 17 events + <=4 calls over the 9 state-carrying events",
     ),
     "wrapper": SubCheck(
         name="wrapper",
         describe="all sequences of PinchProblem load/target/export calls: target() equals the fresh result of the currently loaded problem, module state unchanged",
         rule="state = module digest; non-trivial = every history (all contain a wrapper call); outcomes = (loaded problem, last event)",
         explore=pp_explore, replay=pp_replay, prepare=lambda tier, inst: fresh_reference(inst),
-        bound=lambda t: "all histories of <=4 of 5 events (780)" if t == "quick" else "all histories of <=5 of 5 events (3905)",
+        bound=lambda t: "all histories of <=3 of 6 events + <=4 of the 4 events {load JSON, load CSV pair, target, export}" if t == "quick" else "all histories of <=4 of 6 events + <=5 of the 4 core events",
     ),
 }
